@@ -120,6 +120,50 @@ def run(ctx, budget=None):
     def dump(sc):
         return {k: (v if k != "files" else {n: (c if isinstance(c, str) else c.decode("latin-1")) for n, c in v.items()}) for k, v in sc.items()}
 
+    # 0. structural stress, through the CLI only (a hang must hit the timeout, a fatal error must not take the driver down):
+    # cycles of every kind with references INTO them from every position, deep diamonds (exponentially many paths), long chains
+    def stress_cases():
+        fx = {"meta": {"pkg": "gen", "imports": {"fx": gen.FX}}}
+        for cyc in ({"a": "%b%", "b": "%a%"}, {"a": "%a%"}, {"a": "x%b%", "b": "%c%y", "c": "%a%"}, {"a": "%b%", "b": "%a%", "lead": "pre-%a%", "lead2": "%lead%"}):
+            ref = "%lead2%" if "lead2" in cyc else "%a%"
+            yield "param-cycle+service-arg", dict(fx, parameters=cyc, services={"s": {"constructor": "fx.NewA", "arguments": [ref, ref]}})
+            yield "param-cycle+field+call", dict(fx, parameters=cyc, services={"s": {"constructor": "fx.NewA", "fields": {"F1": ref}, "calls": [["Call1", [ref]]]}})
+            yield "param-cycle+decorator-arg", dict(fx, parameters=cyc, services={"s": {"constructor": "fx.NewA", "tags": ["t"]}},
+                                                    decorators=[{"tag": "t", "decorator": "fx.Dec1", "arguments": [ref]}])
+            yield "param-cycle+missing", dict(fx, parameters=dict(cyc, z="%nope%%a%"), services={"s": {"constructor": "fx.NewA", "arguments": ["%z%", "@nope"]}})
+        yield "service-cycle+tag+decorator", dict(fx, services={"a": {"constructor": "fx.NewA", "arguments": ["!tagged t"], "tags": ["u"]}, "b": {"constructor": "fx.NewA", "tags": ["t"], "arguments": ["@c"]},
+                                                                 "c": {"constructor": "fx.NewA", "arguments": ["@a"]}}, decorators=[{"tag": "u", "decorator": "fx.Dec1", "arguments": ["@b"]}])
+        for top_scope, bottom_scope in (("shared", None), ("shared", "contextual"), (None, "contextual"), ("contextual", None), (None, None)):
+            for layers in (12, 40):
+                svcs = {}
+                for l in range(layers):
+                    for k in (0, 1):
+                        svcs["n%02d_%d" % (l, k)] = {"constructor": "fx.NewA", "arguments": (["@n%02d_0" % (l + 1), "@n%02d_1" % (l + 1)] if l + 1 < layers else [])}
+                svcs["top"] = {"constructor": "fx.NewA", "arguments": ["@n00_0", "@n00_1"]}
+                if top_scope:
+                    svcs["top"]["scope"] = top_scope
+                if bottom_scope:
+                    svcs["n%02d_0" % (layers - 1)]["scope"] = bottom_scope
+                yield "diamond-%d-%s-%s" % (layers, top_scope, bottom_scope), dict(fx, services=svcs)
+        n = 1500
+        yield "service-chain", dict(fx, services={"s%04d" % k: {"constructor": "fx.NewA", "arguments": (["@s%04d" % (k + 1)] if k + 1 < n else [])} for k in range(n)})
+        yield "param-chain", dict(fx, parameters={"p%04d" % k: ("%%p%04d%%" % (k + 1) if k + 1 < n else "end") for k in range(n)}, services={"s": {"constructor": "fx.NewA", "arguments": ["%p0000%"]}})
+        yield "param-chain-into-cycle", dict(fx, parameters=dict({"p%04d" % k: "%%p%04d%%" % (k + 1) for k in range(300)}, p0300="%p0000%"), services={"s": {"constructor": "fx.NewA", "arguments": ["%p0150%"]}})
+
+    for label, cfg in stress_cases():
+        sc = {"name": "stress:" + label, "files": {"cfg/a.yaml": gen.yaml_doc(cfg)}, "patterns": ["cfg/a.yaml"], "out": "out/gen.go", "pre": "absent", "flags": {}}
+        for fl in ([], ["--ignore-missing-params", "--ignore-missing-services"]):
+            runsc.setup_dir(root, sc)
+            t0 = time.time()
+            rc, so, se = core.cli(["build", "-i", "cfg/a.yaml", "-o", "out/gen.go"] + fl, cwd=root, timeout=40)
+            dist["cli_runs"] += 1
+            dist["stress_cases"] = dist.get("stress_cases", 0) + 1
+            if rc == -9:
+                violations.append({"sig": "hang", "what": "the command did not finish within 40 s on %s (%d services, %d bytes)" % (label, len(cfg.get("services", {})), len(sc["files"]["cfg/a.yaml"])), "scenario": dict(dump(sc), cli_flags=fl)})
+            elif rc not in (0, 1):
+                violations.append({"sig": "cli-exit-%s" % rc, "what": "CLI exit %r on %s: stderr %r" % (rc, label, se[:600]), "scenario": dict(dump(sc), cli_flags=fl)})
+            nontriv.add((rc, "stress", label.split("-")[0]))
+
     # 1. schema-aware type confusions in every position
     t_end = time.time() + budget * 0.45
     combos = [(p, v) for p in POSITIONS for v in CONFUSIONS]
